@@ -106,3 +106,10 @@ int outlive(int kind) {
   return kind;
 }
 void drop() { fs = 0; gkeep = 0; }
+// zombie family: an object destructs itself and keeps calling efuns that capture arguments / register state
+int relay_z(mixed a, mixed b, mixed c, mixed d) { return sizeof(a); }
+mixed zombie(int kind) {
+  object z = new("/c06/z");
+  enable_commands();
+  return z->go(kind, this_object());
+}
